@@ -56,6 +56,9 @@ struct Spec {
 	/// subscription ids (300 characters) that do not fit into max_response_body_size (200): the subscribe call is answered
 	/// with the "response too big" error, so no subscription may come into being
 	long_ids: bool,
+	/// an ordinary call that stays in its handler on this connection from the start until the given instant (ms) - also
+	/// across an unsubscribe, a disconnect or the server stop
+	held_call: Option<(usize, u64)>,
 }
 
 #[derive(Debug, Clone)]
@@ -130,6 +133,7 @@ fn gen_spec(seed: u64) -> Spec {
 		subs,
 		delays: r.chance(2, 3),
 		long_ids: r.chance(1, 10),
+		held_call: if r.chance(1, 3) { Some((r.usize(conns), r.below(horizon + 10))) } else { None },
 	}
 }
 
@@ -166,6 +170,10 @@ async fn run_spec(spec: &Spec, real_time: bool) -> Out {
 			}
 		}
 	}
+	// from here on only the connections keep the server alive (as with the accept loop of `Server::start` after `stop()`):
+	// `stopped()` resolves when the last connection task has let go of its stop handle
+	let server_handle = srv.handle.clone();
+	drop(srv);
 	// frame pump: periodically moves frames from each RawWs into the shared log (the ticket was taken by the reader task)
 	let pump = |writers: &Vec<Arc<tokio::sync::Mutex<Option<RawWs>>>>, frames: &Vec<Arc<Mutex<Vec<FrameEv>>>>| {
 		let writers = writers.clone();
@@ -194,6 +202,17 @@ async fn run_spec(spec: &Spec, real_time: bool) -> Out {
 		if let Some(ws) = writers[s.conn].lock().await.as_mut() {
 			let _ = ws.send_text(&msg).await;
 		}
+	}
+	if let Some((c, until)) = spec.held_call {
+		let msg = json!({"jsonrpc": "2.0", "id": 777, "method": "hold", "params": ["held"]}).to_string();
+		if let Some(ws) = writers[c].lock().await.as_mut() {
+			let _ = ws.send_text(&msg).await;
+		}
+		let reg2 = reg.clone();
+		tokio::spawn(async move {
+			tokio::time::sleep(Duration::from_millis(until)).await;
+			reg2.release("held");
+		});
 	}
 	tokio::time::sleep(Duration::from_millis(2)).await;
 
@@ -329,7 +348,7 @@ async fn run_spec(spec: &Spec, real_time: bool) -> Out {
 	}
 	let stopped_ticket: Arc<Mutex<Option<u64>>> = Default::default();
 	if let Some(at) = spec.stop_at {
-		let handle = srv.handle.clone();
+		let handle = server_handle.clone();
 		let st = stopped_ticket.clone();
 		tokio::spawn(async move {
 			tokio::time::sleep(Duration::from_millis(at)).await;
@@ -534,6 +553,9 @@ fn record(spec: &Spec, o: Out, ev: &mut Evidence, violations: &mut Vec<Violation
 	ev.count("library_points_reached", o.points as u64);
 	if spec.long_ids {
 		ev.count("histories_with_subscription_ids_above_the_response_limit", 1);
+	}
+	if spec.held_call.is_some() {
+		ev.count("histories_with_an_ordinary_call_held_in_its_handler", 1);
 	}
 	if o.notifications > 0 {
 		ev.nontrivial(&(spec.seed, spec.buffer));
